@@ -30,6 +30,8 @@ class FormatEntry:
                 return False
             if kind == "any" and not any(_has(x) for x in m):
                 return False
+            if kind == "alt" and not any(FormatEntry(None, {}, None, list(c), None).present for c in m):
+                return False
         return True
 
     def raises_names(self):
@@ -82,8 +84,38 @@ def format_registry(prog):
     entries = []
     name_sources = {}   # name -> [modules that can bind it through a guarded import]
 
+    flags = {}          # module-level name -> [(constant value, ctx)]: `_uri_library = "rfc3987"` inside an import branch
+
+    def flag_test(t):
+        """(flag name, predicate on the constant) for `NAME == c`, `NAME != c`, `NAME is [not] None`, `NAME in (c, ...)`, `not NAME`, `NAME`."""
+        if isinstance(t, ast.Name) and t.id in flags and t.id not in name_sources:
+            return t.id, bool
+        if isinstance(t, ast.UnaryOp) and isinstance(t.op, ast.Not) and isinstance(t.operand, ast.Name) and t.operand.id in flags and t.operand.id not in name_sources:
+            return t.operand.id, (lambda v: not v)
+        if isinstance(t, ast.Compare) and len(t.ops) == 1 and isinstance(t.left, ast.Name) and t.left.id in flags:
+            op, rhs = t.ops[0], t.comparators[0]
+            if isinstance(rhs, ast.Constant) and isinstance(op, (ast.Eq, ast.Is)):
+                return t.left.id, (lambda v, c=rhs.value: v == c and type(v) is type(c))
+            if isinstance(rhs, ast.Constant) and isinstance(op, (ast.NotEq, ast.IsNot)):
+                return t.left.id, (lambda v, c=rhs.value: not (v == c and type(v) is type(c)))
+            if isinstance(rhs, (ast.Tuple, ast.List, ast.Set)) and all(isinstance(x, ast.Constant) for x in rhs.elts) and isinstance(op, (ast.In, ast.NotIn)):
+                vals = [x.value for x in rhs.elts]
+                return t.left.id, ((lambda v: v in vals) if isinstance(op, ast.In) else (lambda v: v not in vals))
+        return None
+
     def walk(body, ctx):
         for st in body:
+            if isinstance(st, ast.Assign) and len(st.targets) == 1 and isinstance(st.targets[0], ast.Name) and isinstance(st.value, ast.Constant) \
+                    and (st.value.value is None or isinstance(st.value.value, (str, bool, int))):
+                flags.setdefault(st.targets[0].id, []).append((st.value.value, list(ctx)))
+                continue
+            if isinstance(st, ast.If) and flag_test(st.test) is not None:
+                nm, pred = flag_test(st.test)
+                yes = [c for v, c in flags[nm] if pred(v)]
+                no = [c for v, c in flags[nm] if not pred(v)]
+                walk(st.body, ctx + [("alt", yes)])
+                walk(st.orelse, ctx + [("alt", no)])
+                continue
             if isinstance(st, ast.Try) and st.handlers and all(_is_import_error(h) for h in st.handlers):
                 mods, names = _imports_in(st.body)
                 for nm, m in names.items():
